@@ -517,7 +517,11 @@ for _t, _b in INTBITS.items():
         MODELS['<%s as std::default::Default>::default' % t] = lambda it, a, c: 0
         MODELS['<%s as std::clone::Clone>::clone' % t] = lambda it, a, c: deref(a[0])
         MODELS['<%s as num_traits::ToPrimitive>::to_u128' % t] = lambda it, a, c: SOME(deref(a[0]))
-        MODELS['<%s as num_traits::ToPrimitive>::to_u64' % t] = lambda it, a, c: SOME(deref(a[0])) if b <= 64 else None
+        def to_u64(it, a, c):
+            v = deref(a[0])
+            if b <= 64: return SOME(v)
+            return SOME(v) if it.ctx.branch(in_range(v, 64), 'to_u64') else NONE()
+        MODELS['<%s as num_traits::ToPrimitive>::to_u64' % t] = to_u64
         CONSTS['core::num::<impl %s>::MAX' % t] = 2 ** b - 1
         CONSTS['core::num::<impl %s>::MIN' % t] = 0
         CONSTS['%s::MAX' % t] = 2 ** b - 1
